@@ -480,7 +480,7 @@ theorem C06_line_fixed_witness : lineOut { cap := 1000, alloc := .fixed } 999 = 
 
 mutual
 theorem PExpr.strLen_le_bound (fmax smax wfac base per kf : Nat) (hb : fmax ≤ base) (hp : smax ≤ per) (hk : wfac ≤ kf) :
-    ∀ e : PExpr, e.wf fmax smax wfac → e.strLen ≤ e.bound base per kf
+    ∀ e : PExpr, e.wf fmax smax wfac → e.strLen ≤ e.bound base per kf true
   | .leaf f n x, h => by
     simp only [PExpr.wf] at h
     have : wfac * n ≤ kf * n := Nat.mul_le_mul_right n hk
@@ -504,27 +504,33 @@ theorem PExpr.strLen_le_bound (fmax smax wfac base per kf : Nat) (hb : fmax ≤ 
     have ha := PArgs.strLen_le_bound fmax smax wfac base per kf hb hp hk as h.2
     simp only [PExpr.strLen, PExpr.bound]; omega
 theorem PArgs.strLen_le_bound (fmax smax wfac base per kf : Nat) (hb : fmax ≤ base) (hp : smax ≤ per) (hk : wfac ≤ kf) :
-    ∀ as : PArgs, as.wf fmax smax wfac → as.strLen ≤ as.bound base per kf
+    ∀ as : PArgs, as.wf fmax smax wfac → as.strLen ≤ as.bound base per kf true
   | .nil, _ => by simp [PArgs.strLen, PArgs.bound]
   | .cons s e r, h => by
     simp only [PArgs.wf] at h
     have he := PExpr.strLen_le_bound fmax smax wfac base per kf hb hp hk e h.2.1
     have hr := PArgs.strLen_le_bound fmax smax wfac base per kf hb hp hk r h.2.2
     simp only [PArgs.strLen, PArgs.bound]; omega
+  | .rep s e r, h => by
+    simp only [PArgs.wf] at h
+    have he := PExpr.strLen_le_bound fmax smax wfac base per kf hb hp hk e h.2.1
+    have hr := PArgs.strLen_le_bound fmax smax wfac base per kf hb hp hk r h.2.2
+    simp only [PArgs.strLen, PArgs.bound, if_true]; omega
 end
 
 def exprLenCfgSafe (c : ExprLenCfg) (fmax smax wfac : Nat) : Bool :=
-  c.sized && decide (fmax ≤ c.base) && decide (smax ≤ c.perArg) && decide (1 ≤ c.needExtra) && decide (wfac ≤ c.nameFactor)
+  c.sized && decide (fmax ≤ c.base) && decide (smax ≤ c.perArg) && decide (1 ≤ c.needExtra) && decide (wfac ≤ c.nameFactor) &&
+    c.repeatCounted
 
 theorem exprLenOut_safe (c : ExprLenCfg) (fmax smax wfac : Nat) (h : exprLenCfgSafe c fmax smax wfac = true)
     (e : PExpr) (hw : e.wf fmax smax wfac) : exprLenOut c e = .ok e.strLen := by
   simp [exprLenCfgSafe] at h
-  obtain ⟨⟨⟨⟨hs, hb⟩, hp⟩, hn⟩, hk⟩ := h
+  obtain ⟨⟨⟨⟨⟨hs, hb⟩, hp⟩, hn⟩, hk⟩, hr⟩ := h
   have hle := PExpr.strLen_le_bound fmax smax wfac c.base c.perArg c.nameFactor hb hp hk e hw
   unfold exprLenOut
-  simp only [hs, Bool.true_and]
-  by_cases hc : c.cap < e.bound c.base c.perArg c.nameFactor + c.needExtra
-  · have : e.strLen + 1 ≤ e.bound c.base c.perArg c.nameFactor + c.needExtra := by omega
+  simp only [hs, hr, Bool.true_and]
+  by_cases hc : c.cap < e.bound c.base c.perArg c.nameFactor true + c.needExtra
+  · have : e.strLen + 1 ≤ e.bound c.base c.perArg c.nameFactor true + c.needExtra := by omega
     simp [hc, this]
   · have : e.strLen + 1 ≤ c.cap := by omega
     simp [hc, this]
@@ -532,20 +538,36 @@ theorem exprLenOut_safe (c : ExprLenCfg) (fmax smax wfac : Nat) (h : exprLenCfgS
 /-- **C06, exppp `EXPRlength`**: for every printable expression tree whose per-node fixed text, list separators and bytes
 per character of a literal are within what `EXPRstring` emits (regenerated from EXPRstring), `EXPRstring` stays inside the
 buffer that `EXPRlength` sizes with `EXPRstring_bound` (constants regenerated from EXPRstring_bound): producer and capacity
-agree for every literal; identifiers, strings and binary literals may be arbitrarily long, nesting arbitrarily deep. -/
+agree for every literal; identifiers, strings and binary literals may be arbitrarily long, nesting arbitrarily deep,
+repetition counts `[ x : count ]` of aggregate initialisers included (`PArgs.rep`: the bound must be taken of the count
+expression the writer prints, regenerated as `repeatCounted`). -/
 theorem C06_no_overflow_exprlength (e : PExpr) (hw : e.wf exprFixedMax exprSepMax exprNameWriteFactor) :
     exprLenOut exprLenCfg e = .ok e.strLen :=
   exprLenOut_safe exprLenCfg exprFixedMax exprSepMax exprNameWriteFactor (by decide) e hw
 
+/-- **C06, `EXPRstring` and `EXPRstring_bound` descend into the same sub-expressions**, expression kind by expression kind
+(regenerated by comparing the `case` blocks of the two functions: every argument of a recursive `EXPRstring( …, X )` —
+`EXPRop_string` counted as `e->e.op1`, `e->e.op2` — must be an argument of `EXPRstring_bound( X )` under the same label).
+This is what lets the model give one tree to both functions; the repetition count of an aggregate initialiser, where the
+list holds a wrapper node, is modelled separately (`PArgs.rep`, `repeatCounted`). -/
+theorem C06_exprlength_children_agree : exprChildMismatch = [] := by decide
+
 /-- the tree before `fix: C06-3`: fixed `buffer[10000]` — a 10 000-character attribute name overflows -/
 theorem C06_exprlength_fixed_witness :
-    exprLenOut { cap := 10000, sized := false, base := 0, perArg := 0, needExtra := 0, nameFactor := 1 } (.leaf 0 10000 0) = .overflow 10000 := by
+    exprLenOut { cap := 10000, sized := false, base := 0, perArg := 0, needExtra := 0, nameFactor := 1, repeatCounted := true } (.leaf 0 10000 0) = .overflow 10000 := by
   decide
 
 /-- seeded regression C06-d2: EXPRstring doubles every apostrophe of a string literal (2 bytes per character at most, plus
 the two enclosing ones) while EXPRstring_bound still counts the text once: 6000 apostrophes need 12 002 bytes, the block has 6129 -/
 theorem C06_exprlength_apostrophes_witness :
-    exprLenOut { cap := 10000, sized := true, base := 128, perArg := 3, needExtra := 1, nameFactor := 1 } (.leaf 2 6000 6000) = .overflow 10000 := by
+    exprLenOut { cap := 10000, sized := true, base := 128, perArg := 3, needExtra := 1, nameFactor := 1, repeatCounted := true } (.leaf 2 6000 6000) = .overflow 10000 := by
+  decide
+
+/-- the tree before C06-43 (audit finding C06-1): for `[ 0 : count ]` EXPRstring_bound looked at the wrapper node (128 bytes)
+while EXPRstring prints the count expression: a 20 000-character identifier as count overflows `sbuffer[10000]` -/
+theorem C06_exprlength_repeat_witness :
+    exprLenOut { cap := 10000, sized := true, base := 128, perArg := 3, needExtra := 1, nameFactor := 1, repeatCounted := false }
+      (.list 2 (.cons 0 (.leaf 1 0 0) (.rep 3 (.leaf 0 20000 0) .nil))) = .overflow 10000 := by
   decide
 
 example : (PExpr.funcall 3 4 (.cons 0 (.leaf 0 9 0) (.cons 2 (.leaf 1 0 0) .nil))).wf exprFixedMax exprSepMax exprNameWriteFactor := by
@@ -1288,6 +1310,165 @@ theorem C06_rename_resolution_terminates (R S : List Nat) (g : ImportGraph) (hc 
 theorem C06_rename_resolution_unmarked_witness (fuel : Nat) :
     renameResolve false true ⟨fun _ => [], fun _ => [0], fun _ => 0⟩ fuel [] 0 = none :=
   (rename_unmarked_loop fuel).1
+
+/-! ## lattices: many paths through few nodes -/
+
+/-- successors of the nodes of `u` that have not been expanded yet: what a walk that expands every node once can still spend -/
+def edgesLeft (u : List Nat) (h : Hier) (seen : List Nat) : Nat :=
+  ((u.filter (notIn seen)).map (fun x => (h x).length)).sum
+
+theorem edgesLeft_mono (u : List Nat) (h : Hier) (m m' : List Nat) (hs : ∀ x, x ∈ m → x ∈ m') :
+    edgesLeft u h m' ≤ edgesLeft u h m := by
+  unfold edgesLeft
+  induction u with
+  | nil => simp
+  | cons a t ih =>
+    by_cases ha : a ∈ m
+    · rw [List.filter_cons, List.filter_cons, notIn_of_mem ha, notIn_of_mem (hs a ha)]
+      simpa using ih
+    · by_cases ha' : a ∈ m'
+      · rw [List.filter_cons, List.filter_cons, notIn_of_not_mem ha, notIn_of_mem ha']
+        simp only [if_true, Bool.false_eq_true, if_false, List.map_cons, List.sum_cons]
+        omega
+      · rw [List.filter_cons, List.filter_cons, notIn_of_not_mem ha, notIn_of_not_mem ha']
+        simp only [if_true, List.map_cons, List.sum_cons]
+        omega
+
+theorem edgesLeft_expand (u : List Nat) (h : Hier) (m : List Nat) (e : Nat) (he : e ∈ u) (hm : e ∉ m) :
+    edgesLeft u h (e :: m) + (h e).length ≤ edgesLeft u h m := by
+  induction u with
+  | nil => simp at he
+  | cons a t ih =>
+    have mono := edgesLeft_mono t h m (e :: m) (fun x hx => List.mem_cons_of_mem _ hx)
+    unfold edgesLeft at mono ih ⊢
+    by_cases hae : a = e
+    · subst hae
+      rw [List.filter_cons, List.filter_cons, notIn_of_mem (List.mem_cons_self), notIn_of_not_mem hm]
+      simp only [Bool.false_eq_true, if_false, if_true, List.map_cons, List.sum_cons]
+      omega
+    · have het : e ∈ t := by
+        rcases List.mem_cons.mp he with h1 | h1
+        · exact absurd h1.symm hae
+        · exact h1
+      have ih' := ih het
+      by_cases ham : a ∈ m
+      · have : a ∈ e :: m := List.mem_cons_of_mem _ ham
+        rw [List.filter_cons, List.filter_cons, notIn_of_mem this, notIn_of_mem ham]
+        simpa using ih'
+      · have : a ∉ e :: m := by
+          intro hc
+          rcases List.mem_cons.mp hc with h1 | h1
+          · exact hae h1
+          · exact ham h1
+        rw [List.filter_cons, List.filter_cons, notIn_of_not_mem this, notIn_of_not_mem ham]
+        simp only [if_true, List.map_cons, List.sum_cons]
+        omega
+
+theorem walkStepsList_ok (u : List Nat) (h : Hier) (fuel bound : Nat)
+    (IH : ∀ seen e, e ∈ u → unmarked u seen ≤ bound →
+      ∃ s k, walkSteps true h fuel seen e = some (s, k) ∧ (∀ x, x ∈ seen → x ∈ s) ∧ k + edgesLeft u h s ≤ edgesLeft u h seen + 1) :
+    ∀ (cs seen : List Nat), (∀ c, c ∈ cs → c ∈ u) → unmarked u seen ≤ bound →
+      ∃ s k, walkStepsList true h fuel seen cs = some (s, k) ∧ (∀ x, x ∈ seen → x ∈ s) ∧
+        k + edgesLeft u h s ≤ edgesLeft u h seen + cs.length := by
+  intro cs
+  induction cs with
+  | nil => intro seen _ _; exact ⟨seen, 0, by simp [walkStepsList], fun x hx => hx, by simp⟩
+  | cons c rest ih =>
+    intro seen hcs hf
+    obtain ⟨s1, k1, h1, sub1, b1⟩ := IH seen c (hcs c List.mem_cons_self) hf
+    have hf1 : unmarked u s1 ≤ bound := Nat.le_trans (unmarked_mono u seen s1 sub1) hf
+    obtain ⟨s2, k2, h2, sub2, b2⟩ := ih s1 (fun y hy => hcs y (List.mem_cons_of_mem _ hy)) hf1
+    refine ⟨s2, k1 + k2, by simp [walkStepsList, h1, h2], fun x hx => sub2 x (sub1 x hx), ?_⟩
+    simp only [List.length_cons]
+    omega
+
+theorem walkSteps_ok (u : List Nat) (h : Hier) (hc : Closed u h) :
+    ∀ (fuel : Nat) (seen : List Nat) (e : Nat), e ∈ u → unmarked u seen ≤ fuel →
+      ∃ s k, walkSteps true h (fuel + 1) seen e = some (s, k) ∧ (∀ x, x ∈ seen → x ∈ s) ∧
+        k + edgesLeft u h s ≤ edgesLeft u h seen + 1 := by
+  intro fuel
+  induction fuel with
+  | zero =>
+    intro seen e he hf
+    by_cases hs : e ∈ seen
+    · exact ⟨seen, 1, by simp [walkSteps, hs], fun x hx => hx, by omega⟩
+    · have := unmarked_lt u seen e he hs
+      omega
+  | succ fuel IH =>
+    intro seen e he hf
+    by_cases hs : e ∈ seen
+    · exact ⟨seen, 1, by simp [walkSteps, hs], fun x hx => hx, by omega⟩
+    · have hlt := unmarked_lt u seen e he hs
+      have hexp := edgesLeft_expand u h seen e he hs
+      obtain ⟨s, k, hl, sub, b⟩ := walkStepsList_ok u h (fuel + 1) fuel
+        (fun seen' c hc' hf' => IH seen' c hc' hf') (h e) (e :: seen) (hc e he) (by omega)
+      refine ⟨s, k + 1, by simp [walkSteps, hs, hl], fun x hx => sub x (List.mem_cons_of_mem _ hx), ?_⟩
+      omega
+
+theorem filter_notIn_nil (u : List Nat) : u.filter (notIn []) = u := by
+  induction u with
+  | nil => rfl
+  | cons a t ih => simp [notIn, ih]
+
+/-- a walk that expands every node once makes at most one call per successor entry, plus the first -/
+theorem walkSteps_linear (u : List Nat) (h : Hier) (hc : Closed u h) (seen : List Nat) (e : Nat) (he : e ∈ u) :
+    ∃ s k, walkSteps true h (u.length + 1) seen e = some (s, k) ∧ k ≤ (u.map (fun x => (h x).length)).sum + 1 := by
+  have hu : unmarked u seen ≤ u.length := by unfold unmarked; exact List.length_filter_le _ _
+  obtain ⟨s, k, hw, _, b⟩ := walkSteps_ok u h hc u.length seen e he hu
+  refine ⟨s, k, hw, ?_⟩
+  have h0 : edgesLeft u h seen ≤ (u.map (fun x => (h x).length)).sum := by
+    have := edgesLeft_mono u h [] seen (by simp)
+    simpa [edgesLeft, filter_notIn_nil] using this
+  omega
+
+/-- a walk that follows every path: on the ladder the number of calls doubles with every level -/
+theorem walkSteps_ladder (n : Nat) : walkSteps false ladderH (n + 1) [] n = some ([], 2 ^ (n + 1) - 1) := by
+  induction n with
+  | zero => simp [walkSteps, ladderH, walkStepsList]
+  | succ n ih =>
+    have hl : ladderH (n + 1) = [n, n] := by simp [ladderH]
+    have hp : 1 ≤ 2 ^ (n + 1) := Nat.one_le_two_pow
+    simp only [walkSteps, Bool.false_and, Bool.false_eq_true, if_false, hl, walkStepsList, ih]
+    congr 2
+    rw [Nat.pow_succ 2 (n + 1)]
+    omega
+
+
+/-- **C06, walks over lattices take one call per edge**: `ENTITYget_all_attributes` (all generators' view of inherited
+attributes), exp2python's ancestor test and exp2cxx's count of select paths each remember what they have expanded
+(regenerated: the membership test with its return, and the insertion, both before the recursion).  For every finite graph
+— any number of paths between two nodes — such a walk returns after at most one call per successor entry plus one. -/
+theorem C06_dag_walks_linear (w : String) (memo : Bool) (hm : (w, memo) ∈ dagWalks)
+    (u : List Nat) (h : Hier) (hc : Closed u h) (seen : List Nat) (e : Nat) (he : e ∈ u) :
+    ∃ s k, walkSteps memo h (u.length + 1) seen e = some (s, k) ∧ k ≤ (u.map (fun x => (h x).length)).sum + 1 := by
+  have hall : dagWalks.all (fun p => p.2) = true := by decide
+  have : memo = true := List.all_eq_true.mp hall (w, memo) hm
+  rw [this]; exact walkSteps_linear u h hc seen e he
+
+/-- the walks before C06-38, 39, 41 followed every path: on n levels of nodes that name the level below twice the number
+of calls is 2^(n+1) − 1 (40 levels: 2·10^12) -/
+theorem C06_path_walk_exponential_witness (n : Nat) :
+    walkSteps false ladderH (n + 1) [] n = some ([], 2 ^ (n + 1) - 1) :=
+  walkSteps_ladder n
+
+/-- **C06, exp2cxx complex entity support**: the tree of subtype lists is unfolded path by path by design (it is what
+compstructs.cc is written from), so its size is not bounded by the size of the schema; the constructor of the list
+nodes counts them and ends the run beyond the regenerated budget: never more than that many nodes are built, whatever
+the schema. -/
+theorem C06_complex_support_nodes_bounded :
+    ∃ b, complexNodeBudget = some b ∧ b ≤ 10000000 ∧
+      ∀ built, built ≤ b → countNode complexNodeBudget built = .reject ∨ ∃ m, countNode complexNodeBudget built = .ok m ∧ m ≤ b := by
+  cases hb : complexNodeBudget with
+  | none => exact absurd hb (by decide)
+  | some b =>
+    have hle : b ≤ 10000000 := by
+      have : complexNodeBudget.all (fun x => decide (x ≤ 10000000)) = true := by decide
+      simpa [hb] using this
+    refine ⟨b, rfl, hle, ?_⟩
+    intro built _
+    by_cases hx : b < built + 1
+    · left; simp [countNode, hx]
+    · right; exact ⟨built + 1, by simp [countNode, hx], by omega⟩
 
 /-! ## nesting depth -/
 
